@@ -29,6 +29,7 @@ func (q *clientSegmentQueue) push(seg *segmentData) {
 	queueWasEmpty := (len(q.queue) == 0)
 	q.queue = append(q.queue, seg)
 
+	verifYield("queue.push.locked")
 	if queueWasEmpty {
 		close(q.didPush)
 		q.didPush = make(chan struct{})
@@ -42,6 +43,7 @@ func (q *clientSegmentQueue) waitUntilSizeIsBelow(ctx context.Context, n int) bo
 
 	for len(q.queue) > n {
 		q.mutex.Unlock()
+		verifYield("queue.wait.unlocked")
 
 		select {
 		case <-q.didPull:
@@ -62,6 +64,7 @@ func (q *clientSegmentQueue) pull(ctx context.Context) (*segmentData, bool) {
 	for len(q.queue) == 0 {
 		didPush := q.didPush
 		q.mutex.Unlock()
+		verifYield("queue.pull.unlocked")
 
 		select {
 		case <-didPush:
@@ -74,6 +77,7 @@ func (q *clientSegmentQueue) pull(ctx context.Context) (*segmentData, bool) {
 
 	var seg *segmentData
 	seg, q.queue = q.queue[0], q.queue[1:]
+	verifYield("queue.pull.locked")
 
 	close(q.didPull)
 	q.didPull = make(chan struct{})
